@@ -380,6 +380,12 @@ class _Gen:
             t, n_, f = typ, num, ferm
             if p.bar_variants and rng.random() < 0.08:
                 n_ = '' if n_ else self.written_number()
+            if p.bar_variants and rng.random() < 0.06:
+                # the cells of one barline row need not agree: a double bar, a repeat sign or a fermata in one staff only
+                t = rng.choice(BAR_TYPES)
+                if rng.random() < 0.4:
+                    f = '' if f else ';'
+                self.doc.tags.add('barline_row_with_different_cells')
             # the whole row is invisible or none of it is; kernpy replaces an invisible barline by a null on export
             cells.append(Cell('bar', f'{eq}{n_}{"-" if hidden else ""}{t}{f}',
                               obj={'eq': eq, 'num': n_, 'type': t, 'fermata': f, 'hidden': hidden}))
